@@ -4,12 +4,16 @@
 
      reg   the model's hard references   (Model._agents, a dict in insertion order)
      ext   references the program holds  (a multiset: one entry per reference)
-     cur   the agent bound to the local variable `agent` of the running do/shuffle_do/map frame
+     cur   the agent bound to the local `agent` of every running do/shuffle_do/map frame (a stack:
+           a callback may start an activation of its own)
      sets  every AgentSet in play: Model._all_agents (SAll), Model._agents_by_type[c] (SType c) and
            the program's own sets (SUser k); each is a WeakKeyDictionary = keys in insertion order
            from which a key disappears at the moment its agent dies (`sweep`).
 
-   An agent is alive iff some strong reference exists: alive a := a in reg \/ a in ext \/ cur = a.
+   An agent is alive iff some strong reference exists: alive a := a in reg \/ a in ext \/ a in cur.
+   A callback may raise (Raise: the loop is left at once, the exception travels through every running
+   activation) and may start an activation itself (Nested; the agents called there run a second,
+   level-0 script).
    do/map:      for agentref in self._agents.keyrefs(): if (agent := agentref()) is not None: call
    shuffle_do:  weakrefs = list(keyrefs()); self.random.shuffle(weakrefs); same loop over weakrefs
    The permutation chosen by random.shuffle is an input (`perm`), checked to be a permutation of the
@@ -42,16 +46,17 @@ Record st := mkSt {
   next_id : Z;                      (* next value of Agent._ids[model] *)
   reg : list Z;                     (* Model._agents keys *)
   ext : list Z;                     (* references held by the program *)
-  cur : option Z;                   (* local `agent` of the activation frame *)
+  cur : list (option Z);            (* local `agent` of every running activation frame, innermost first *)
   cls : list (Z * Z);               (* type(agent) *)
   sets : list (sref * list Z);      (* weak sets *)
-  nuser : Z                         (* number of program-made sets *)
+  nuser : Z;                        (* number of program-made sets *)
+  nlog : list Z                     (* calls made by nested activations during the current op (observation only) *)
 }.
 
-Definition init_st : st := mkSt 1 [] [] None [] [(SAll, [])] 0.
+Definition init_st : st := mkSt 1 [] [] [] [] [(SAll, [])] 0 [].
 
-Definition is_cur (s : st) (a : Z) : bool :=
-  match cur s with Some c => c =? a | None => false end.
+Definition holds (a : Z) (o : option Z) : bool := match o with Some c => c =? a | None => false end.
+Definition is_cur (s : st) (a : Z) : bool := existsb (holds a) (cur s).
 Definition alive (s : st) (a : Z) : bool := memz a (reg s) || memz a (ext s) || is_cur s a.
 
 Fixpoint class_of_l (l : list (Z * Z)) (a : Z) : Z :=
@@ -68,11 +73,18 @@ Fixpoint lookup (r : sref) (l : list (sref * list Z)) : option (list Z) :=
   end.
 
 Definition set_sets (f : list (sref * list Z)) (s : st) : st :=
-  mkSt (next_id s) (reg s) (ext s) (cur s) (cls s) f (nuser s).
+  mkSt (next_id s) (reg s) (ext s) (cur s) (cls s) f (nuser s) (nlog s).
 Definition set_ext (e : list Z) (s : st) : st :=
-  mkSt (next_id s) (reg s) e (cur s) (cls s) (sets s) (nuser s).
-Definition set_cur (c : option Z) (s : st) : st :=
-  mkSt (next_id s) (reg s) (ext s) c (cls s) (sets s) (nuser s).
+  mkSt (next_id s) (reg s) e (cur s) (cls s) (sets s) (nuser s) (nlog s).
+Definition set_frames (c : list (option Z)) (s : st) : st :=
+  mkSt (next_id s) (reg s) (ext s) c (cls s) (sets s) (nuser s) (nlog s).
+Definition set_nlog (l : list Z) (s : st) : st :=
+  mkSt (next_id s) (reg s) (ext s) (cur s) (cls s) (sets s) (nuser s) l.
+(* rebinding the local `agent` of the innermost frame *)
+Definition set_cur (c : option Z) (s : st) : st := set_frames (c :: tl (cur s)) s.
+(* a call of do / shuffle_do / map starts (its local is unbound) / its frame is gone *)
+Definition push_frame (s : st) : st := set_frames (None :: cur s) s.
+Definition pop_frame (s : st) : st := set_frames (tl (cur s)) s.
 
 (* weakref callbacks: every key whose agent has no strong reference left disappears *)
 Definition upd_sets (g : sref -> list Z -> list Z) (l : list (sref * list Z)) : list (sref * list Z) :=
@@ -91,7 +103,7 @@ Definition deregister (a : Z) (s : st) : st :=
   if memz a (reg s) then
     mkSt (next_id s) (remove_z a (reg s)) (ext s) (cur s) (cls s)
          (upd_sets (fun r m => if touches (class_of s a) r then remove_z a m else m) (sets s))
-         (nuser s)
+         (nuser s) (nlog s)
   else s.
 
 (* the program looks the agent up (only a living object can be reached), calls agent.remove(),
@@ -114,13 +126,15 @@ Definition create1 (c : Z) (keep : bool) (s : st) : st :=
   let sets1 := upd_sets (fun r m => if touches c r then m ++ [a] else m) (sets s) in
   let sets2 := if has_set (SType c) (sets s) then sets1 else sets1 ++ [(SType c, [a])] in
   mkSt (a + 1) (reg s ++ [a]) (if keep then ext s ++ [a] else ext s) (cur s)
-       ((a, c) :: cls s) sets2 (nuser s).
+       ((a, c) :: cls s) sets2 (nuser s) (nlog s).
 
 Fixpoint create_n (n : nat) (c : Z) (keep : bool) (s : st) : st :=
   match n with
   | O => s
   | S n' => create_n n' c keep (create1 c keep s)
   end.
+
+Inductive akind := KDo | KShuffleDo | KMap.
 
 (* what a callback (or the program between activations) can do *)
 Inductive act :=
@@ -129,7 +143,9 @@ Inductive act :=
 | RemoveId (i : Z) (keep : bool)
 | Create (c n : Z) (keep : bool)
 | DropRef (i : Z)
-| AddRef (i : Z).
+| AddRef (i : Z)
+| Raise                                      (* the callback raises: the activation is aborted *)
+| Nested (k : akind) (r : sref) (perm : list Z).  (* the callback itself calls r.do / shuffle_do / map *)
 
 Definition exec_act (self : Z) (s : st) (a : act) : st :=
   match a with
@@ -139,6 +155,8 @@ Definition exec_act (self : Z) (s : st) (a : act) : st :=
   | Create c n k => create_n (Z.to_nat n) c k s
   | DropRef i => sweep (set_ext (remove_first i (ext s)) s)
   | AddRef i => if alive s i then set_ext (ext s ++ [i]) s else s
+  | Raise => s
+  | Nested _ _ _ => s          (* given a meaning by the executor ex1 below *)
   end.
 
 Definition script := list (Z * list act).
@@ -148,24 +166,33 @@ Fixpoint script_of (sc : script) (a : Z) : list act :=
   | (b, l) :: t => if a =? b then l else script_of t a
   end.
 
-Definition run_acts (self : Z) (l : list act) (s : st) : st := fold_left (exec_act self) l s.
+(* an executor runs one act of a callback and says whether it raised *)
+Definition executor := Z -> st -> act -> st * bool.
 
-(* the loop body of do / shuffle_do / map over the list of weak references `order` *)
-Fixpoint visit (sc : script) (order : list Z) (s : st) : st * list Z :=
+(* the statements of a callback in order; an exception ends it *)
+Fixpoint run_acts (ex : executor) (self : Z) (l : list act) (s : st) : st * bool :=
+  match l with
+  | [] => (s, false)
+  | a :: t => let '(s', raised) := ex self s a in
+              if raised then (s', true) else run_acts ex self t s'
+  end.
+
+(* the loop body of do / shuffle_do / map over the list of weak references `order`;
+   result: state, agents called (in order), whether a callback raised (the loop is then left at once) *)
+Fixpoint visit (ex : executor) (sc : script) (order : list Z) (s : st) : st * list Z * bool :=
   match order with
-  | [] => (s, [])
+  | [] => (s, [], false)
   | r :: rest =>
       if alive s r then
         (* agent := agentref()  rebinds the local, the previous agent loses that reference *)
         let s1 := sweep (set_cur (Some r) s) in
-        let s2 := run_acts r (script_of sc r) s1 in
-        let '(s3, log) := visit sc rest s2 in (s3, r :: log)
+        let '(s2, raised) := run_acts ex r (script_of sc r) s1 in
+        if raised then (s2, [r], true)
+        else let '(s3, log, rz) := visit ex sc rest s2 in (s3, r :: log, rz)
       else
         (* agent := None *)
-        visit sc rest (sweep (set_cur None s))
+        visit ex sc rest (sweep (set_cur None s))
   end.
-
-Inductive akind := KDo | KShuffleDo | KMap.
 
 Fixpoint zlist_eqb (a b : list Z) : bool :=
   match a, b with
@@ -184,13 +211,45 @@ Definition visit_order (k : akind) (perm snap : list Z) : option (list Z) :=
   end.
 
 (* one call of do / shuffle_do / map on a set whose members are `snap` at call time; the frame
-   (and with it `agent`) is gone when the call returns *)
-Definition activate (k : akind) (perm : list Z) (sc : script) (snap : list Z) (s : st)
-  : option (st * list Z) :=
+   (and with it `agent`) is gone when the call returns or the exception leaves it *)
+Definition activate (ex : executor) (k : akind) (perm : list Z) (sc : script) (snap : list Z) (s : st)
+  : option (st * list Z * bool) :=
   match visit_order k perm snap with
   | None => None
   | Some order =>
-      let '(s1, log) := visit sc order s in Some (sweep (set_cur None s1), log)
+      let '(s1, log, rz) := visit ex sc order (push_frame s) in Some (sweep (pop_frame s1), log, rz)
+  end.
+
+(* AgentSet.shuffle() (not in place): weakrefs = list(keyrefs()); random.shuffle(weakrefs);
+   AgentSet((agent for ref in weakrefs if (agent := ref()) is not None), random) - then .do(...) on
+   that temporary set *)
+Definition shuffle_new (perm snap : list Z) (s : st) : option (list Z) :=
+  if is_perm perm snap then Some (filter (alive s) perm) else None.
+Definition shuffle_then_do (ex : executor) (perm : list Z) (sc : script) (snap : list Z) (s : st)
+  : option (st * list Z * bool) :=
+  match shuffle_new perm snap s with
+  | None => None
+  | Some m => activate ex KDo [] sc m s
+  end.
+
+(* level 0: callbacks that do not start activations themselves (Nested is a no-op) *)
+Definition is_raise (a : act) : bool := match a with Raise => true | _ => false end.
+Definition ex0 : executor := fun self s a => (exec_act self s a, is_raise a).
+
+(* level 1: a callback may call do / shuffle_do / map on a set; the agents called by that inner
+   activation run the level-0 script sc2; an exception in there travels out through the callback *)
+Definition ex1 (sc2 : script) : executor := fun self s a =>
+  match a with
+  | Nested k r perm =>
+      match lookup r (sets s) with
+      | None => (s, false)
+      | Some snap =>
+          match activate ex0 k perm sc2 snap s with
+          | None => (set_nlog (nlog s ++ [-3]) s, false)
+          | Some (s', log, rz) => (set_nlog (nlog s' ++ (-35 :: log)) s', rz)
+          end
+      end
+  | _ => ex0 self s a
   end.
 
 (* AgentSet.groupby(by): defaultdict(list) filled in iteration order, one weak AgentSet per key *)
@@ -200,18 +259,20 @@ Definition groups_of (m : Z) (l : list Z) : list (Z * list Z) :=
   map (fun k => (k, filter (fun a => gkey m a =? k) l)) (group_keys m l).
 
 (* GroupBy.do / map: for v in self.groups.values(): getattr(v, method)( *args).  A group is a weak
-   set of its own: by the time its turn comes it holds the members still alive. *)
-Fixpoint visit_groups (k : akind) (sc : script) (gs : list (Z * list Z)) (perms : list (list Z))
-         (s : st) : option (st * list (Z * list Z)) :=
+   set of its own: by the time its turn comes it holds the members still alive.  An exception
+   leaves the loop over the groups as well. *)
+Fixpoint visit_groups (ex : executor) (k : akind) (sc : script) (gs : list (Z * list Z))
+         (perms : list (list Z)) (s : st) : option (st * list (Z * list Z) * bool) :=
   match gs with
-  | [] => Some (s, [])
+  | [] => Some (s, [], false)
   | (key, g) :: gs' =>
-      match activate k (hd [] perms) sc (filter (alive s) g) s with
+      match activate ex k (hd [] perms) sc (filter (alive s) g) s with
       | None => None
-      | Some (s1, log1) =>
-          match visit_groups k sc gs' (tl perms) s1 with
+      | Some (s1, log1, rz1) =>
+          if rz1 then Some (s1, [(key, log1)], true) else
+          match visit_groups ex k sc gs' (tl perms) s1 with
           | None => None
-          | Some (s2, logs) => Some (s2, (key, log1) :: logs)
+          | Some (s2, logs, rz) => Some (s2, (key, log1) :: logs, rz)
           end
       end
   end.
@@ -221,8 +282,9 @@ Inductive op :=
 | OAct (a : act)                                    (* the program itself, outside any activation *)
 | ONewSet (ids : list Z)                            (* AgentSet([those still alive], random) *)
 | OCollect                                          (* gc.collect() *)
-| OActivate (k : akind) (s : sref) (perm : list Z) (sc : script) (args : list Z)
-| OGroup (k : akind) (s : sref) (m : Z) (perms : list (list Z)) (sc : script) (args : list Z).
+| OActivate (k : akind) (s : sref) (perm : list Z) (sc sc2 : script) (args : list Z)
+| OShuffleThenDo (s : sref) (perm : list Z) (sc sc2 : script) (args : list Z)   (* s.shuffle().do(...) *)
+| OGroup (k : akind) (s : sref) (m : Z) (perms : list (list Z)) (sc sc2 : script) (args : list Z).
 
 (* observation: the registry, the program's references and every set, in order *)
 Definition enc_ref (r : sref) : list Z :=
@@ -236,40 +298,55 @@ Definition view (s : st) : list Z :=
 
 (* what the callback logs: the agent and the arguments it received; map returns 2*id+1 *)
 Definition obs_log (args log : list Z) : list Z := flat_map (fun a => a :: args) log.
-Definition obs_ret (k : akind) (log : list Z) : list Z :=
+Definition obs_ret (k : akind) (raised : bool) (log : list Z) : list Z :=
+  if raised then [-37] else
   match k with
   | KMap => -31 :: map (fun a => 2 * a + 1) log
   | _ => [-32]
   end.
 
-Definition step (s : st) (o : op) : st * list Z :=
+Definition obs_activation (k : akind) (args : list Z) (res : st * list Z * bool) : st * list Z :=
+  let '(s', log, rz) := res in
+  (s', (-30 :: obs_log args log) ++ obs_ret k rz log ++ (-38 :: nlog s') ++ view s').
+
+Definition step (s0 : st) (o : op) : st * list Z :=
+  let s := set_nlog [] s0 in
   match o with
   | OAct a => let s' := exec_act (-1) s a in (s', view s')
   | ONewSet ids =>
       let m := dedup_first Z.eqb (filter (alive s) ids) in
       let s' := mkSt (next_id s) (reg s) (ext s) (cur s) (cls s)
-                     (sets s ++ [(SUser (nuser s), m)]) (nuser s + 1) in
+                     (sets s ++ [(SUser (nuser s), m)]) (nuser s + 1) (nlog s) in
       (s', view s')
   | OCollect => (s, view s)
-  | OActivate k r perm sc args =>
+  | OActivate k r perm sc sc2 args =>
       match lookup r (sets s) with
       | None => (s, [-2])
       | Some snap =>
-          match activate k perm sc snap s with
+          match activate (ex1 sc2) k perm sc snap s with
           | None => (s, [-3])
-          | Some (s', log) => (s', (-30 :: obs_log args log) ++ obs_ret k log ++ view s')
+          | Some res => obs_activation k args res
           end
       end
-  | OGroup k r m perms sc args =>
+  | OShuffleThenDo r perm sc sc2 args =>
+      match lookup r (sets s) with
+      | None => (s, [-2])
+      | Some snap =>
+          match shuffle_then_do (ex1 sc2) perm sc snap s with
+          | None => (s, [-3])
+          | Some res => obs_activation KDo args res
+          end
+      end
+  | OGroup k r m perms sc sc2 args =>
       match lookup r (sets s) with
       | None => (s, [-2])
       | Some members =>
           if m <=? 0 then (s, [-2]) else
-          match visit_groups k sc (groups_of m members) perms s with
+          match visit_groups (ex1 sc2) k sc (groups_of m members) perms s with
           | None => (s, [-3])
-          | Some (s', logs) =>
-              (s', flat_map (fun kl => (-34 :: fst kl :: obs_log args (snd kl)) ++ obs_ret k (snd kl)) logs
-                   ++ view s')
+          | Some (s', logs, rz) =>
+              (s', flat_map (fun kl => (-34 :: fst kl :: obs_log args (snd kl))) logs
+                   ++ (if rz then [-37] else [-32]) ++ (-38 :: nlog s') ++ view s')
           end
       end
   end.
